@@ -32,8 +32,21 @@ fn dump_one(name: &str, table: &PeriodicTable, out: &mut Vec<Value>) {
             })
             .filter(|v| !v[1].is_null())
             .collect();
+        // `index_isotopes` — the mechanism that records the shift bounds — run again on a copy (and on a copy whose recorded
+        // bounds were spoiled first) must arrive at the recorded values
+        let reindex_ok = guarded(|| {
+            let mut a = e.clone();
+            a.index_isotopes();
+            let mut b = e.clone();
+            b.min_neutron_shift = 7;
+            b.max_neutron_shift = -7;
+            b.index_isotopes();
+            (a.min_neutron_shift, a.max_neutron_shift) == (e.min_neutron_shift, e.max_neutron_shift)
+                && (b.min_neutron_shift, b.max_neutron_shift) == (e.min_neutron_shift, e.max_neutron_shift)
+        })
+        .unwrap_or(false);
         // (`get` and `Index<&str>` are two ways to the same element)
-        let get_ok = table.get(key).map(|x| x.symbol == e.symbol && std::ptr::eq(x, &table[key.as_str()])).unwrap_or(false);
+        let get_ok = table.get(key).map(|x| x.symbol == e.symbol && std::ptr::eq(x, &table[key.as_str()])).unwrap_or(false) && reindex_ok;
         out.push(json!({
             "table": name,
             "key": key,
